@@ -39,7 +39,9 @@ SHARDS = 16
 
 
 def plan(tier, seed):
-    return [dict(persona="other", persona_kw=dict(cell_px=None, area_px=None, name="foot", version="1.16", xtversion=True, fg=[1, 2, 3], bg=[250, 251, 252]), seed=seed, index=i, hists=N_HIST[tier], stress=N_STRESS[tier], winsize=[80, 24, 640, 384]) for i in range(SHARDS)]
+    # (some shards under a kitty identity: what the text styles derive from the terminal's
+    # name -- the kitty background workaround -- is a cached terminal fact too)
+    return [dict(persona="other", persona_kw=dict(cell_px=None, area_px=None, name=("foot", "kitty")[i % 4 == 2], version=("1.16", "0.30.1")[i % 4 == 2], xtversion=True, fg=[1, 2, 3], bg=[250, 251, 252]), seed=seed, index=i, hists=N_HIST[tier], stress=N_STRESS[tier], winsize=[80, 24, 640, 384]) for i in range(SHARDS)]
 
 
 class Model:
@@ -127,7 +129,7 @@ def run_history(seed, env, res, probes, allow_subprocess=False):
     sizes_seen = []
     steps = rnd.randint(5, 40)
     for step in range(steps):
-        op = rnd.choice(["resize", "resize", "resize_back", "resize_back", "pixels", "swap_on", "swap_off", "q_on", "q_off", "ratio", "xt", "read", "read", "read", "read_ratio", "probe", "probe", "probe_resize", "read_colours", "read_name"] + (["subprocess"] if allow_subprocess else []))
+        op = rnd.choice(["resize", "resize", "resize_back", "resize_back", "pixels", "swap_on", "swap_off", "q_on", "q_off", "ratio", "xt", "read", "read", "read", "read_ratio", "probe", "probe", "probe_resize", "read_colours", "read_name", "read_on_kitty"] + (["subprocess"] if allow_subprocess else []))
         ops.append(op)
         if m.term[:2] not in sizes_seen:
             sizes_seen.append(m.term[:2])
@@ -250,10 +252,27 @@ def run_history(seed, env, res, probes, allow_subprocess=False):
                     fail("stale-cell-ratio", "DYNAMIC ratio %r, acceptable %r (terminal %s)" % (got, sorted(okv), m.term))
                     return
                 m.note_read({c for c in acc if ((c[0] / c[1]) if c else 0.5) == got})
+        elif op == "read_on_kitty":
+            # derived from the terminal's name: follows the fate of that query result
+            from term_image.image import BlockImage
+
+            got = BlockImage._is_on_kitty()
+            res.count("reads compared with the model")
+            kitty = p.name.lower() == "kitty"
+            slot = m.memo.setdefault("read_name", None)
+            if m.queries:
+                want = False if slot == "disabled" else kitty
+            else:
+                want = kitty if slot == "enabled" else False
+            if got != want:
+                fail("stale-query-result", "TextImage._is_on_kitty() = %r, a fresh computation gives %r (terminal says %r; queries %s, name obtained while %s)" % (got, want, p.name, "enabled" if m.queries else "disabled", slot))
+                return
+            if slot is None:
+                m.memo["read_name"] = "enabled" if m.queries else "disabled"
         elif op in ("read_colours", "read_name"):
             # memoized query results: what was obtained while queries were disabled must
             # not survive re-enabling them
-            fn, scripted, default = (utils.get_fg_bg_colors, ((1, 2, 3), (250, 251, 252)), (None, None)) if op == "read_colours" else (utils.get_terminal_name_version, ("foot", "1.16"), (None, None))
+            fn, scripted, default = (utils.get_fg_bg_colors, ((1, 2, 3), (250, 251, 252)), (None, None)) if op == "read_colours" else (utils.get_terminal_name_version, (p.name.lower(), p.version), (None, None))
             got = tuple(fn())
             res.count("reads compared with the model")
             slot = m.memo.setdefault(op, None)
